@@ -719,7 +719,25 @@ def _run(ctx, q):
                 nontrivial=nontrivial, time_budget=6 if q else 70)
     ctx.explore("long", lambda r: gen_with(r.choice(["grid", "grid", "cmamae", "proximity"]), r, long=True),
                 run_case, ctx.n(40, 3000), nontrivial=nontrivial, time_budget=6 if q else 90)
+    # BanditScheduler routes rows "as Scheduler does" (its tell is its own code): the C16 runner, judged here
+    # only on the routing clauses (which emitter is asked / told which rows)
+    ctx.explore("bandit-routing", _bandit_gen, _bandit_run, ctx.n(60, 3000), time_budget=5 if q else 60)
+
+
+def _bandit_gen(rng):
+    from props import c16
+    case = c16.gen_with("some", rng)
+    case["bandit"] = True
+    return case
+
+
+def _bandit_run(case):
+    from props import c16
+    f = c16.run_case(case)
+    if f is not None and f.kind == "oracle" and (" was told " in f.what or " was asked " in f.what or "ask returned" in f.what):
+        return Failure("oracle", "[BanditScheduler routing] " + f.what)
+    return None
 
 
 def replay(ctx, case):
-    return run_case(case)
+    return _bandit_run(case) if case.get("bandit") else run_case(case)
